@@ -210,9 +210,13 @@ func (a *SparseReal32Matrix) Set(b ConstMatrix) {
   if n1 != n2 || m1 != m2 {
     panic("Copy(): Matrix dimension does not match!")
   }
-  for it := a.Iterator(); it.Ok(); it.Next() {
+  for it := a.JOINT_ITERATOR(b); it.Ok(); it.Next() {
     i, j := it.Index()
-    it.Get().Set(b.ConstAt(i, j))
+    s1, s2 := it.Get()
+    if s1 == nil {
+      s1 = a.At(i, j)
+    }
+    s1.Set(s2)
   }
 }
 func (matrix *SparseReal32Matrix) SetIdentity() {
@@ -224,6 +228,11 @@ func (matrix *SparseReal32Matrix) SetIdentity() {
     } else {
       it.Get().Reset()
     }
+  }
+  // diagonal elements that are not stored yet
+  n, m := matrix.Dims()
+  for i := 0; i < n && i < m; i++ {
+    matrix.At(i, i).Set(c)
   }
 }
 func (matrix *SparseReal32Matrix) Reset() {
